@@ -207,7 +207,10 @@ def cmd_check(prop, tier):
         log(f"unknown property {prop}")
         return 2
     try:
-        prove(chk, meta.get("allowed_axioms", ()))
+        if os.environ.get("VERIF_DEV_SKIP_PROOF") == "1":
+            chk.notes.append("DEV: proof phase skipped")
+        else:
+            prove(chk, meta.get("allowed_axioms", ()))
         chk.harness_path = core.build_harness()
         meta["run"](chk)
     except core.BuildError as e:
